@@ -281,6 +281,10 @@ func (e *Env) Build(n *Node) templ.Component {
 		return e.counted(useRec{Kind: "oncewith", Handle: h}, e.U.Onces[h].Once())
 	case "flush":
 		return corpus.FlushBlock(e.kid(n, 0))
+	case "oncecallee":
+		return e.U.Onces[n.N%len(e.U.Onces)].Once()
+	case "flushcallee":
+		return templ.Flush()
 	case "join":
 		return corpus.JoinOf(e.kids(n))
 	case "gojoin":
